@@ -9,7 +9,10 @@
 (*           entry points that reach them.                                    *)
 (* Part II - flooding: nodes with a group overlay, per node the two           *)
 (*           de-duplication caches (received / forwarded, one-minute window), *)
-(*           a bag of message copies.                                         *)
+(*           a bag of message copies.  A receive handler is one step          *)
+(*           (OnMulticast) or, with Split, two: Begin (claim the message,     *)
+(*           hand it to the subscribers) and Finish (forward), so that the    *)
+(*           handlers of two copies at one node overlap.                      *)
 (* The pure operators are shared with the judge.                              *)
 EXTENDS Integers, Sequences, FiniteSets, TLC
 
@@ -145,8 +148,17 @@ CONSTANTS FNode,        \* nodes
           MaxWindows,   \* window expiries per behaviour
           MaxFLoss      \* lost copies per behaviour
 
-VARIABLES olinks, members, win, fnet, dcount, fcount, norig, nwin, nfloss, fsent, flast
-fvars == <<olinks, members, win, fnet, dcount, fcount, norig, nwin, nfloss, fsent, flast>>
+VARIABLES olinks, members, win, fnet, act, dcount, fcount, norig, nwin, nfloss, fsent, flast
+\* act : node -> the copies whose receive handler has begun and not finished (it is about to forward)
+fvars == <<olinks, members, win, fnet, act, dcount, fcount, norig, nwin, nfloss, fsent, flast>>
+
+\* Split: receive handlers take two steps (Begin / Finish) instead of one; a configuration overrides it (Split <- Yes)
+Split == FALSE
+\* ClaimFirst: the handler marks the message as received in the step in which it looks whether it has been received
+\* (the design).  FALSE = check first, mark when the handler finishes: only to show what the split steps can tell apart
+ClaimFirst == TRUE
+Yes == TRUE
+No == FALSE
 
 PeersOf(lk, n) == {v \in FNode : v # n /\ {n, v} \in lk}
 
@@ -158,13 +170,13 @@ FBagRemove(b, m) == IF b[m] = 1 THEN [x \in (DOMAIN b) \ {m} |-> b[x]] ELSE [b E
 Ids == FNode \X (1..MaxMsgs)
 Zero == [n \in FNode |-> [i \in Ids |-> 0]]
 
-FIdle == /\ olinks = {} /\ members = {} /\ win = <<>> /\ fnet = <<>> /\ dcount = <<>> /\ fcount = <<>>
+FIdle == /\ olinks = {} /\ members = {} /\ win = <<>> /\ fnet = <<>> /\ act = <<>> /\ dcount = <<>> /\ fcount = <<>>
          /\ norig = <<>> /\ nwin = 0 /\ nfloss = 0 /\ fsent = 0 /\ flast = [op |-> "idle"]
 \* membership specification (the flooding variables stay idle)
 MSpec == MInit /\ FIdle /\ [][MNext /\ UNCHANGED fvars]_<<mvars, fvars>>
 
 FInit == /\ olinks \in Overlays /\ members \in Joined
-         /\ win = [n \in FNode |-> NoWindow] /\ fnet = <<>>
+         /\ win = [n \in FNode |-> NoWindow] /\ fnet = <<>> /\ act = [n \in FNode |-> {}]
          /\ dcount = Zero /\ fcount = Zero
          /\ norig = [n \in FNode |-> 0] /\ nwin = 0 /\ nfloss = 0 /\ fsent = 0
          /\ flast = [op |-> "init"]
@@ -183,7 +195,7 @@ Originate(n) ==
         /\ fcount' = [fcount EXCEPT ![n][id] = @ + 1]
         /\ flast' = [op |-> "originate", n |-> n, id |-> id]
   /\ norig' = [norig EXCEPT ![n] = @ + 1]
-  /\ UNCHANGED <<olinks, members, dcount, nwin, nfloss>>
+  /\ UNCHANGED <<olinks, members, act, dcount, nwin, nfloss>>
 
 OnMulticast(m) ==
   /\ LET n == m.to
@@ -195,15 +207,49 @@ OnMulticast(m) ==
         /\ dcount' = IF r.notify THEN [dcount EXCEPT ![n][m.id] = @ + 1] ELSE dcount
         /\ fcount' = IF forwarded THEN [fcount EXCEPT ![n][m.id] = @ + 1] ELSE fcount
         /\ flast' = [op |-> "deliver", m |-> m, out |-> r.out]
-  /\ UNCHANGED <<olinks, members, norig, nwin, nfloss>>
+  /\ UNCHANGED <<olinks, members, act, norig, nwin, nfloss>>
 
-FDeliver == \E m \in DOMAIN fnet : OnMulticast(m)
+FDeliver == ~Split /\ \E m \in DOMAIN fnet : OnMulticast(m)
+
+\* the same handler in two steps.  Begin: look whether the message has been received in this window (and claim it);
+\* a new message of another origin is handed to the subscribers and the handler goes on to forward it ...
+BeginStep(W, n, joined, m) ==
+  IF m.id \in W.recv THEN [W |-> W, go |-> FALSE, notify |-> FALSE]
+  ELSE LET W1 == IF ClaimFirst THEN [W EXCEPT !.recv = @ \cup {m.id}] ELSE W
+       IN IF m.id[1] = n THEN [W |-> [W EXCEPT !.recv = @ \cup {m.id}], go |-> FALSE, notify |-> FALSE]
+          ELSE [W |-> W1, go |-> TRUE, notify |-> joined]
+OnBegin(m) ==
+  /\ LET n == m.to
+         r == BeginStep(win[n], n, n \in members, m)
+     IN /\ win' = [win EXCEPT ![n] = r.W]
+        /\ fnet' = FBagRemove(fnet, m)
+        /\ act' = IF r.go THEN [act EXCEPT ![n] = @ \cup {m}] ELSE act
+        /\ dcount' = IF r.notify THEN [dcount EXCEPT ![n][m.id] = @ + 1] ELSE dcount
+        /\ flast' = [op |-> "begin", m |-> m, out |-> {}]
+  /\ UNCHANGED <<olinks, members, fcount, norig, nwin, nfloss, fsent>>
+\* ... Finish: Multicast(info, skip sender), i.e. forward unless forwarded in this window
+FinishStep(W, n, peers, m) ==
+  LET r == ForwardStep(W, n, peers, m.id, {m.from})
+  IN [W |-> [r.W EXCEPT !.recv = @ \cup {m.id}], out |-> r.out]
+OnFinish(m) ==
+  /\ LET n == m.to
+         r == FinishStep(win[n], n, PeersOf(olinks, n), m)
+     IN /\ win' = [win EXCEPT ![n] = r.W]
+        /\ fnet' = FBagAddAll(fnet, r.out)
+        /\ act' = [act EXCEPT ![n] = @ \ {m}]
+        /\ fsent' = fsent + Cardinality(r.out)
+        /\ fcount' = IF m.id \notin win[n].fwd THEN [fcount EXCEPT ![n][m.id] = @ + 1] ELSE fcount
+        /\ flast' = [op |-> "finish", m |-> m, out |-> r.out]
+  /\ UNCHANGED <<olinks, members, dcount, norig, nwin, nfloss>>
+FBegin  == Split /\ \E m \in DOMAIN fnet : m \notin act[m.to] /\ OnBegin(m)
+FFinish == Split /\ \E n \in FNode : \E m \in act[n] : OnFinish(m)
+FHandle == FDeliver \/ FBegin \/ FFinish
 
 FLose == /\ nfloss < MaxFLoss
          /\ \E m \in DOMAIN fnet : /\ fnet' = FBagRemove(fnet, m)
                                    /\ flast' = [op |-> "lose", m |-> m]
          /\ nfloss' = nfloss + 1
-         /\ UNCHANGED <<olinks, members, win, dcount, fcount, norig, nwin, fsent>>
+         /\ UNCHANGED <<olinks, members, win, act, dcount, fcount, norig, nwin, fsent>>
 
 \* the one-minute window of node n is over: both caches forget everything
 WindowExpire(n) ==
@@ -214,25 +260,25 @@ WindowExpire(n) ==
   /\ fcount' = [fcount EXCEPT ![n] = [i \in Ids |-> 0]]
   /\ nwin' = nwin + 1
   /\ flast' = [op |-> "expire", n |-> n]
-  /\ UNCHANGED <<olinks, members, fnet, norig, nfloss, fsent>>
+  /\ UNCHANGED <<olinks, members, fnet, act, norig, nfloss, fsent>>
 
 FNext == \/ \E n \in FNode : Originate(n) \/ WindowExpire(n)
-         \/ FDeliver
+         \/ FHandle
          \/ FLose
 
 MIdle == nbr = {} /\ pend = {} /\ grp = <<>> /\ ann = <<>> /\ mlast = [op |-> "idle"]
 FSpec == FInit /\ MIdle /\ [][FNext /\ UNCHANGED mvars]_<<mvars, fvars>>
-FFairSpec == FSpec /\ WF_<<mvars, fvars>>(FDeliver /\ UNCHANGED mvars)
+FFairSpec == FSpec /\ WF_<<mvars, fvars>>(FHandle /\ UNCHANGED mvars)
 
 \* C38, second sentence
 DeliveredAtMostOncePerWindow == \A n \in FNode : \A i \in Ids : dcount[n][i] <= 1
 ForwardedAtMostOncePerWindow == \A n \in FNode : \A i \in Ids : fcount[n][i] <= 1
 OriginNeverNotified == \A n \in FNode : \A i \in Ids : i[1] = n => dcount[n][i] = 0
-NotBackToSender == [][flast'.op = "deliver" => \A c \in flast'.out : c.to # flast'.m.from /\ c.to # c.from]_fvars
+NotBackToSender == [][flast'.op \in {"deliver", "finish"} => \A c \in flast'.out : c.to # flast'.m.from /\ c.to # c.from]_fvars
 
 \* every node forwards an id at most once per window, to each of its peers at most once:
 \* at most (1 + expiries) rounds of at most 2 * |links| copies per message
 FloodBound(msgs, windows, nlinks) == msgs * (1 + windows) * 2 * nlinks
 FloodBounded == fsent <= FloodBound(MaxMsgs, MaxWindows, Cardinality(olinks))
-FloodQuiesces == <>[](fnet = <<>>)
+FloodQuiesces == <>[](fnet = <<>> /\ \A n \in FNode : act[n] = {})
 =============================================================================
